@@ -23,7 +23,7 @@ RULE = ('seeded random specs (node kinds, attribute names incl. l2/l10 ordering 
         'distinct = distinct spec; non-trivial = >= 2 nodes and >= 1 Variable, or any aliasing.')
 ASSUMPTIONS = ['vf.compat JAX aliases are faithful']
 PLAN = {'quick': dict(workers=4, timeout_s=900), 'thorough': dict(workers=14, timeout_s=3000)}
-MIN_EVENTS = {'quick': {'oracle:roundtrip': 400, 'oracle:partition': 300, 'oracle:update': 150, 'oracle:pop': 100, 'oracle:clone': 100,
+MIN_EVENTS = {'quick': {'oracle:roundtrip': 1500, 'oracle:partition': 1200, 'oracle:update': 150, 'oracle:pop': 100, 'oracle:clone': 100,
                         'oracle:state': 300, 'hook.flatten': 1000, 'hook.unflatten': 400, 'aliased_graphs': 100, 'cyclic_graphs': 30},
               'thorough': {'oracle:roundtrip': 8000, 'oracle:pop': 2000, 'hook.flatten': 20000}}
 
@@ -259,7 +259,17 @@ def run_graph(ctx, spec, rng, n_ops):
       else:
         sel = lambda p, v: True
       new = jax.tree.map(lambda x: x + 100, st)
-      nnx.update(g, new)
+      if rng.random() < 0.5:
+        # same content, different insertion order (a State is a mapping) / split across several states
+        pairs = list(statelib.to_flat_state(new))
+        rng.shuffle(pairs)
+        if len(pairs) >= 2 and rng.random() < 0.5:
+          h = len(pairs) // 2
+          nnx.update(g, statelib.from_flat_state(pairs[:h]), statelib.from_flat_state(pairs[h:]))
+        else:
+          nnx.update(g, statelib.from_flat_state(pairs) if pairs else new)
+      else:
+        nnx.update(g, new)
       ctx.op('update')
       # shadow: bump the selected leaves directly (Variables in place, raw array attributes by re-binding on their Module)
       for p, v, holder, key in G.ref_leaf_edges(sh.root):
@@ -402,7 +412,7 @@ def _reachable(spec):
 def run(ctx):
   from vf.gen import nnx_graph as G
   install_hooks(ctx)
-  n = 260 if ctx.tier == 'quick' else 7000
+  n = 1500 if ctx.tier == 'quick' else 9000
   for i in ctx.indices(n, 'graph'):
     rng = ctx.rng('graph', i)
     big = ctx.tier == 'thorough' and i % 10 == 0
